@@ -1679,3 +1679,49 @@ Proof.
     match goal with |- context [fold_left ?f ?l (fst (fst acc))] => assert (Ht : txr (fst (fst acc)) (fold_left f l (fst (fst acc)))) by (apply txr_fold; intros s0 x; apply txr_with_trade; intros y; apply txr_order_status) end.
     destruct Ht as [T1 T2]. cbn [add_tx ls_tx ls_tx_failed]. rewrite T2, G2, G3. lia.
 Qed.
+
+(* ---------- C12 (4): attribution for the position-matched handlers (place, update): the i-th report decides the i-th order, and only it ---------- *)
+Lemma fold_attribution {A} (f : lstate -> A -> lstate) (key : A -> Z) (g : A -> option status -> option status) :
+  (forall s x k, k <> key x -> ostat (f s x) k = ostat s k) ->
+  (forall s x, ostat (f s x) (key x) = g x (ostat s (key x))) ->
+  forall l x0 s, NoDup (map key l) -> In x0 l -> ostat (fold_left f l s) (key x0) = g x0 (ostat s (key x0)).
+Proof.
+  intros Hother Hself. induction l as [|x r IH]; intros x0 s Hnd Hin; [destruct Hin|]. cbn [fold_left]. cbn [map] in Hnd. inversion Hnd as [|? ? Hx Hr]; subst.
+  destruct Hin as [->|Hin].
+  - rewrite (fold_untouched f key r (key x0)); [apply Hself| |exact Hx]. intros s0 y Hne. apply Hother. exact Hne.
+  - rewrite IH by assumption. f_equal. apply Hother. intro E. apply Hx. rewrite <- E. apply in_map. exact Hin.
+Qed.
+
+Definition place_status (r : pstat) : status :=
+  match r with PSuccess os _ _ => if os =? 2 then SExecComplete else SExecutable | PFailure _ => SExecComplete | PTimeout _ => SExecutable end.
+Definition place_outcome (r : pstat) (before : option status) : option status :=
+  match before with None => None | Some st => Some (match r with PSuccess os _ _ => if os =? 1 then st else place_status r | PFailure _ => SExecComplete | PTimeout _ => st end) end.
+
+Lemma ostat_place_body_self n r x : ostat (place_body n r x) n = place_outcome r (ostat x n).
+Proof.
+  destruct r as [os b m|b|b]; cbn [place_body]; cbv zeta.
+  - destruct (os =? 1) eqn:E1.
+    + rewrite ostat_setbet. destruct (ostat x n); cbn [place_outcome]; rewrite ?E1; reflexivity.
+    + destruct (os =? 2) eqn:E2; rewrite ostat_order_status, Z.eqb_refl, ostat_setbet; destruct (ostat x n); cbn [place_outcome place_status option_map]; rewrite ?E1, ?E2; reflexivity.
+  - rewrite ostat_order_status, Z.eqb_refl, ostat_force_zero, ostat_setbet. destruct (ostat x n); reflexivity.
+  - rewrite ostat_setbet. destruct (ostat x n); reflexivity.
+Qed.
+Lemma ostat_with_trade_self s n body g : (forall x, ostat (body x) n = g (ostat x n)) -> g None = None -> ostat (with_trade s n body) n = g (ostat s n).
+Proof.
+  intros Hb Hg. unfold with_trade. destruct (oget n (ls_orders s)) eqn:E.
+  - rewrite ostat_trade_set, Hb, ostat_trade_set. reflexivity.
+  - unfold ostat. rewrite E. cbn. symmetry. exact Hg.
+Qed.
+
+Theorem place_attribution s names reports n r : NoDup (pkg_orders s names) -> In (n, r) (zip (pkg_orders s names) reports) ->
+  ostat (exec_place s names reports) n = place_outcome r (ostat s n).
+Proof.
+  intros Hnd Hin. unfold exec_place. cbv zeta.
+  assert (Ea : forall x a c, ostat (add_tx x a c) n = ostat x n) by reflexivity. rewrite Ea.
+  apply (fold_attribution (fun s (nr : Z * pstat) => with_trade s (fst nr) (place_body (fst nr) (snd nr))) fst (fun nr => place_outcome (snd nr))) with (x0 := (n, r)); [| | |exact Hin].
+  - intros s0 x k Hk. apply ostat_with_trade_other. intros y. apply ostat_place_body_other. exact Hk.
+  - intros s0 x. apply ostat_with_trade_self; [intros y; apply ostat_place_body_self|destruct (snd x); reflexivity].
+  - clear - Hnd. revert reports. induction (pkg_orders s names) as [|h t IH]; intros [|y b]; cbn [zip map]; try constructor.
+    + intro Hin. inversion Hnd; subst. apply zip_fst_incl in Hin. tauto.
+    + apply IH. inversion Hnd; assumption.
+Qed.
